@@ -238,6 +238,9 @@ var SimpleTypes = []string{"text", "int4", "bool", "int8", "varchar"}
 // Cols generates n column declarations over the given type names.
 func Cols(n int, types []string) *rapid.Generator[[]script.Col] {
 	return rapid.Custom(func(t *rapid.T) []script.Col {
+		if n == 0 {
+			rapid.Just(0).Draw(t, "no-columns")
+		}
 		cols := make([]script.Col, n)
 		for i := range cols {
 			c := script.Col{T: rapid.SampledFrom(types).Draw(t, "type")}
@@ -266,6 +269,9 @@ func Cols(n int, types []string) *rapid.Generator[[]script.Col] {
 // Row generates one value per column (right arity, encodable).
 func Row(cols []script.Col, nullPct int, reps bool) *rapid.Generator[[]script.Val] {
 	return rapid.Custom(func(t *rapid.T) []script.Val {
+		if len(cols) == 0 {
+			rapid.Just(0).Draw(t, "no-columns")
+		}
 		vals := make([]script.Val, len(cols))
 		for i, c := range cols {
 			vals[i] = Val(c.T, nullPct, reps).Draw(t, "val")
@@ -287,3 +293,85 @@ func Segments() *rapid.Generator[[]int] {
 		return rapid.SliceOfN(rapid.IntRange(1, 9), 1, 40).Draw(t, "segs")
 	})
 }
+
+// Ops generates the body of a statement function over the given columns:
+// rows of right / wrong arity / with an unencodable value, Written() probes,
+// Empty, Complete, operations after completion, an early or final return
+// with or without error.
+func Ops(cols []script.Col, maxOps int, withErr bool) *rapid.Generator[[]script.Op] {
+	return rapid.Custom(func(t *rapid.T) []script.Op {
+		n := rapid.IntRange(0, maxOps).Draw(t, "nops")
+		var ops []script.Op
+		for i := 0; i < n; i++ {
+			switch rapid.IntRange(0, 11).Draw(t, "op") {
+			case 0, 1, 2, 3:
+				ops = append(ops, script.Op{K: "row", Vals: Row(cols, 15, false).Draw(t, "row")})
+			case 4: // wrong arity
+				k := rapid.SampledFrom([]int{0, len(cols) - 1, len(cols) + 1}).Draw(t, "arity")
+				if k < 0 {
+					k = 1
+				}
+				vals := make([]script.Val, k)
+				for j := range vals {
+					vals[j] = script.Val{T: "text", S: "x"}
+				}
+				ops = append(ops, script.Op{K: "row", Vals: vals})
+			case 5: // unencodable value at some column
+				if len(cols) == 0 {
+					continue
+				}
+				vals := Row(cols, 0, false).Draw(t, "row")
+				vals[rapid.IntRange(0, len(cols)-1).Draw(t, "bad-at")].Bad = true
+				ops = append(ops, script.Op{K: "row", Vals: vals})
+			case 6, 7:
+				ops = append(ops, script.Op{K: "written"})
+			case 8:
+				ops = append(ops, script.Op{K: "empty"})
+			case 9, 10:
+				ops = append(ops, script.Op{K: "complete", Tag: rapid.SampledFrom([]string{"OK", "SELECT 1", "", "INSERT 0 1", "é", strings.Repeat("T", 300)}).Draw(t, "tag")})
+			case 11:
+				if withErr {
+					op := script.Op{K: "ret"}
+					if rapid.Bool().Draw(t, "ret-err") {
+						op.Err = SmallErr().Draw(t, "err")
+					}
+					ops = append(ops, op)
+				}
+			}
+		}
+		return ops
+	})
+}
+
+// Stmt generates a statement script.
+func Stmt(types []string, maxCols, maxOps int, withErr bool) *rapid.Generator[script.Stmt] {
+	return rapid.Custom(func(t *rapid.T) script.Stmt {
+		nc := rapid.IntRange(0, maxCols).Draw(t, "ncols")
+		st := script.Stmt{}
+		if nc > 0 {
+			st.Cols = Cols(nc, types).Draw(t, "cols")
+		}
+		st.Ops = Ops(st.Cols, maxOps, withErr).Draw(t, "ops")
+		return st
+	})
+}
+
+// Outcome generates a parser outcome: error, zero, one or several statements.
+func Outcome(types []string, maxStmts, maxCols, maxOps int) *rapid.Generator[script.Outcome] {
+	return rapid.Custom(func(t *rapid.T) script.Outcome {
+		switch rapid.IntRange(0, 9).Draw(t, "outcome") {
+		case 0:
+			return script.Outcome{Err: SmallErr().Draw(t, "perr")}
+		case 1:
+			return script.Outcome{}
+		case 2, 3, 4:
+			if maxStmts >= 2 {
+				return script.Outcome{Stmts: rapid.SliceOfN(Stmt(types, maxCols, maxOps, true), 2, maxStmts).Draw(t, "stmts")}
+			}
+		}
+		return script.Outcome{Stmts: []script.Stmt{Stmt(types, maxCols, maxOps, true).Draw(t, "stmt")}}
+	})
+}
+
+// QueryNames are distinctive query texts used as table keys.
+var QueryNames = []string{"select 1", "select a from t", "insert into t values (1)", "Q3 é", "update t set a = $1", "delete from t", "q6"}
